@@ -313,6 +313,15 @@ func cmdCheck(args []string) {
 		fmt.Printf("  class=%s seed=%d\n  %s\n", v.Class, p.Seed, firstLine(v.Msg, 600))
 		exit = 1
 	}
+	// every listed finding of this property gets its line, also one whose
+	// (rare) history this run's plans did not produce
+	for i := range kf.Known {
+		k := &kf.Known[i]
+		if k.Property == prop && !reported["k:"+k.ID] {
+			reported["k:"+k.ID] = true
+			fmt.Printf("KNOWN-FINDING: property=%s %s: %s (listed; its history was not produced by this run's %d plans)\n", prop, k.ID, firstLine(k.What, 220), a.runs)
+		}
+	}
 	for _, m := range firstN(a.infraMsgs, 3) {
 		fmt.Fprintf(os.Stderr, "simctl: infrastructure trouble in a run: %s\n", firstLine(m, 400))
 	}
